@@ -12,8 +12,12 @@
     `fuse_elem`, `fuse_elem_onto`   (element map through `splitAddr` on every fused axis; bijection
                                      on stored addresses together with `C05.splitAddr_injective`)
     `unfuse_elem`                   (certificate form: for ANY valid array with a fused axis)
-    `unfuse_fuse_blocks`            (round trip, see that section for its exact extent)
-    `fuseA_noexpand`                (the call form of `tensordotViaFused`, empty groups dropped)
+    `unfuse_fuse_blocks`            (round trip: every stored block restored exactly as the transposed
+                                     block, every other block zero; `unfuseGroups` unfuses every fused
+                                     axis from the last group to the first, `unfuseGroups_two` is the
+                                     pattern of `tensordotViaFused`)
+    `fuseA_noexpand`, `groupsOkB_filter`   (the call form of `tensordotViaFused`: empty groups dropped)
+  Not proved in general: `fuseInsert_eq_fuseConcat` for several groups (C05 part a has one group).
 -/
 import SymmModel.Proofs.FuseMultiAll
 import SymmModel.Props.C05
@@ -115,7 +119,7 @@ theorem fuse_elem {R : Type} [Zero R] [Neg R] (a : Arr R) (groups : List (List N
         = (List.range groups.length).map (fun g => (segM a groups ns i g).2) := by simp [List.map_map]
     rw [e1] at hK
     rw [e2] at hJ
-    have hget := h2 s offs hs ho hK hJ
+    have hget := (h2 s offs hs ho hK hJ).1
     have he : a.elem s offs = B.get i := by
       rw [hget]
       simp only [Arr.elem, hph, alookup]
